@@ -272,6 +272,7 @@ def fmt_tokens(s):
     """Which of the ten core look-alikes occur in a string (evidence only): multi-character tokens first, then
     whatever single special characters are left over."""
     out = []
+    back = '\\' in s
     for t in _MULTI:
         if t in s:
             if t in FMT_CORE:
@@ -280,7 +281,7 @@ def fmt_tokens(s):
     for t in ('%', '{', '}'):
         if t in s:
             out.append(t)
-    if '\\' in s:
+    if back:
         out.append('backslash')
     return out
 
